@@ -474,6 +474,27 @@ def rejection_matrix(out: dict[str, Any]) -> None:
             V.append({"key": f"inject-rejection[{name}]", "msg": f"a {name} `resource` marker was accepted when the decorator was applied", "witness": {"source": src}})
 
 
+    # a function without any marker: the decorated function must still behave as the original (all arguments pass through)
+    import warnings as _w
+
+    for name, src, call in (
+        ("no-markers-sync", "@inject\ndef f(a, b=2, *args, k='k', **kw):\n    return (a, b, args, k, kw)\n", lambda f: f(1, 5, 6, 7, k="x", z=1)),
+        ("no-markers-defaults", "@inject\ndef f(a, b=2, *, k='k'):\n    return (a, b, (), k, {})\n", lambda f: f(1)),
+    ):
+        cnt["functions_without_markers"] = cnt.get("functions_without_markers", 0) + 1
+        want = {"no-markers-sync": (1, 5, (6, 7), "x", {"z": 1}), "no-markers-defaults": (1, 2, (), "k", {})}[name]
+        try:
+            with _w.catch_warnings():
+                _w.simplefilter("ignore")
+                ns2 = dict(ns)
+                exec(compile(src, f"<{name}>", "exec", dont_inherit=True), ns2)
+                got = call(ns2["f"])
+            if got != want:
+                V.append({"key": "inject-ordinary-arg", "msg": f"a function without markers decorated with @inject returned {got!r}, the original returns {want!r}", "witness": {"source": src}})
+        except Exception as e:
+            V.append({"key": "inject-unexpected-exception", "msg": f"a function without markers decorated with @inject: {describe_exc(e)}", "witness": {"source": src}})
+
+
 def plan(tier: str) -> dict[str, Any]:
     n = 8000 if tier == "quick" else 800000
     return {"cases": n, "budget_s": 90 if tier == "quick" else 1500, "min_per_shard": 50}
